@@ -5,6 +5,10 @@ import PonyVerif.Model.Aggr
 namespace PonyVerif.Drive.C24
 open Lean PonyVerif.Py PonyVerif.Drive
 
+def jAvg : Option (Int × Nat) → Json
+  | none => Json.null
+  | some (s, n) => toJson [s, (n : Int)]
+
 def handle (j : Json) : Except String Json := do
   let op ← argStr j "op"
   match op with
@@ -34,6 +38,27 @@ def handle (j : Json) : Except String Json := do
         ("count_true", toJson (PonyVerif.Model.Aggr.ponyCount col (some true))),
         ("sum", toJson (PonyVerif.Model.Aggr.ponySum col false)), ("sum_distinct", toJson (PonyVerif.Model.Aggr.ponySum col true)),
         ("min", jOptInt (PonyVerif.Model.Aggr.sqlMin col)), ("max", jOptInt (PonyVerif.Model.Aggr.sqlMax col)),
-        ("distinct", toJson (PonyVerif.Model.Aggr.dedup (PonyVerif.Model.Aggr.nonNull col)))])
+        ("distinct", toJson (PonyVerif.Model.Aggr.dedup (PonyVerif.Model.Aggr.nonNull col))),
+        ("avg", jAvg (PonyVerif.Model.Aggr.sqlAvg col false)), ("avg_distinct", jAvg (PonyVerif.Model.Aggr.sqlAvg col true))])
+  | "gconcat" =>
+      let a ← argArr j "col"
+      let sep ← argStr j "sep"
+      let col : List (Option String) ← a.mapM (fun v => match v with
+        | .null => pure none
+        | v => do let t : String ← fromJson? v; pure (some t))
+      pure (match PonyVerif.Model.Aggr.groupConcat col sep with | none => Json.null | some t => toJson t)
+  | "sample" =>
+      let R : List Int ← (← argArr j "R").mapM (fun v => fromJson? v)
+      let res : List Int ← (← argArr j "res").mapM (fun v => fromJson? v)
+      let n ← argNat j "n"
+      pure (toJson (PonyVerif.Model.Aggr.isSample R res n))
+  | "orderchain" =>
+      -- rows: [[id, a, b], ...] → ids after `order_by(a).order_by(b)`
+      let rows : List (Int × Int × Int) ← (← argArr j "rows").mapM (fun v => do
+        let l : List Int ← fromJson? v
+        match l with
+        | [i, a, b] => pure (i, a, b)
+        | _ => throw "orderchain: [id, a, b]")
+      pure (toJson ((PonyVerif.Model.Aggr.orderChain rows (fun r => r.2.1) (fun r => r.2.2)).map (fun r => r.1)))
   | _ => throw s!"unknown op {op}"
 end PonyVerif.Drive.C24
